@@ -41,6 +41,7 @@ func init() {
   list uint32 { key k; leaf k { type uint32; } leaf v { type int32; } }
   list uint64 { key k; leaf k { type uint64; } leaf v { type int32; } }
   list decimal64 { key k; leaf k { type decimal64 { fraction-digits 2; } } leaf v { type int32; } }
+  list decimal64-9 { key k; leaf k { type decimal64 { fraction-digits 9; } } leaf v { type int32; } }
   list boolean { key k; leaf k { type boolean; } leaf v { type int32; } }
   list enum { key k; leaf k { type enumeration { enum e0; enum e1; enum e7 { value 7; } enum e8; enum e20 { value 20; } } } leaf v { type int32; } }
   list identityref { key k; leaf k { type identityref { base b; } } leaf v { type int32; } }
@@ -59,6 +60,8 @@ var c17LookupKeys = map[string][]string{
 	"uint32":      {"0", "1", "2147483647", "2147483648", "4294967295"},
 	"uint64":      {"0", "1", "9223372036854775807", "9223372036854775808", "18446744073709551615"},
 	"decimal64":   {"-1.5", "0", "0.01", "1.5", "10"},
+	// values that only differ in the last fraction digits
+	"decimal64-9": {"2", "2.000000001", "2.000000002", "-2.000000001", "0.000000001"},
 	"boolean":     {"false", "true"},
 	"enum":        {"e0", "e1", "e7", "e8", "e20"},
 	"identityref": {"i0", "i1", "i2", "i3", "i4"},
@@ -66,7 +69,7 @@ var c17LookupKeys = map[string][]string{
 	"pair": {"a,1", "a,2", "b,1", "b,2", "a,-1"},
 }
 
-var c17LookupTypes = []string{"string", "int8", "int16", "int32", "int64", "uint8", "uint16", "uint32", "uint64", "decimal64", "boolean", "enum", "identityref", "pair"}
+var c17LookupTypes = []string{"string", "int8", "int16", "int32", "int64", "uint8", "uint16", "uint32", "uint64", "decimal64", "decimal64-9", "boolean", "enum", "identityref", "pair"}
 
 // implementations: the harness' reference node, the library's two reflection
 // nodes over map[string]interface{} trees with map- and slice-backed lists,
@@ -156,7 +159,7 @@ func c17StructRoot(keytype string, keys []val.Value, asMap bool) (map[string]int
 		return c17StructObj[uint32](keytype, keys, asMap)
 	case "uint64":
 		return c17StructObj[uint64](keytype, keys, asMap)
-	case "decimal64":
+	case "decimal64", "decimal64-9":
 		return c17StructObj[float64](keytype, keys, asMap)
 	case "boolean":
 		return c17StructObj[bool](keytype, keys, asMap)
